@@ -338,6 +338,8 @@ func Exec(sc sim.Script) *sim.Outcome {
 
 func (w *World) Apply(op Op) {
 	switch op.K {
+	case "wiring":
+		w.wiring(op)
 	case "derive":
 		w.Derive(op.L, op.N)
 	case "write":
@@ -365,6 +367,9 @@ func Gen(r *sim.Rand, tier string) sim.Script {
 	nOps := 3 + r.Intn(30)
 	nl := 1
 	big := r.Chance(1, 6) // totals at and far above the capacity
+	if r.Chance(1, 60) { // the package's own wiring: InitLogging, four root loggers, three dump handlers
+		s.Ops = append(s.Ops, Op{K: "wiring", L: r.Intn(1000), N: r.Intn(1000)})
+	}
 	for i := 0; i < nOps; i++ {
 		switch r.Weighted([]int{5, 14, 3, 4}) {
 		case 0:
